@@ -136,7 +136,12 @@ uint64_t vf_live_bytes(void);
 /* iterate live blocks (for ledger monitors) */
 typedef void (*vf_block_cb)(void *payload, size_t size, uint32_t serial, void *arg);
 void     vf_each_live(vf_block_cb cb, void *arg);
-uint32_t vf_alloc_serial(void);         /* serial the next allocation will get */
+uint32_t vf_alloc_serial(void);
+void     vf_arena_range(uintptr_t *lo, uintptr_t *hi);
+void     vf_core_sections(uintptr_t *blo, uintptr_t *bhi, uintptr_t *dlo, uintptr_t *dhi);
+extern void (*vf_on_free)(void *p, size_t size);
+extern void (*vf_on_alloc)(void *p, size_t size);
+extern int vf_cur_iface;         /* serial the next allocation will get */
 
 /* --------------------------------------------------------------- stations */
 enum { ST_OWN = 0, ST_OWN2, ST_M1, ST_M2, ST_M3, ST_BR, ST_S0, ST_S1, ST_PEER, ST_BC, ST_ZERO, ST_N };
